@@ -22,7 +22,7 @@ type C14Case struct {
 }
 
 func genC14(t *rapid.T) C14Case {
-	c := C14Case{Reg: GenRegSpec(t, []int{OutOK, OutOK, OutGoErr, OutIsError, OutCtxDeadline, OutCtxCanceled}, true)}
+	c := C14Case{Reg: GenRegSpec(t, []int{OutOK, OutOK, OutGoErr, OutIsError, OutCtxDeadline, OutCtxCanceled, OutUnencodable, OutUnencChan}, true)}
 	n := rapid.IntRange(1, 6).Draw(t, "nsteps")
 	for i := 0; i < n; i++ {
 		method := rapid.SampledFrom(CommonMethods).Draw(t, "method")
